@@ -2,6 +2,7 @@
 from contracts import c15_dictlist, c04_status, c05_fva as C  # noqa
 from contracts import c09_pfba as CP
 from contracts import c05_fva_driver as CD
+from contracts import c14_fva_pool as CPOOL
 from pyvc.contract import chain_hooks
 from props._generic import run_property, replay_with_driver
 
@@ -11,7 +12,8 @@ KEYS = ["_fva_step", "check_solver_status", "Model.slim_optimize", "add_pfba"]
 
 def run(rep):
     run_property(rep, KEYS, hooks=chain_hooks(C.HOOKS, CP.HOOKS), lemmas=CP.lemmas,
-                 more=[(["_init_worker", "flux_variability_analysis"], CD.HOOKS)], explanation=(
+                 more=[(["_init_worker", "flux_variability_analysis"], CD.HOOKS),
+                       (["flux_variability_analysis@pool"], CPOOL.HOOKS)], explanation=(
         "Deductive (kernel): _fva_step is proved, for every model and reaction id, to solve the current LP with +1*forward -1*reverse of "
         "the requested reaction added to the objective, to return (requested id, solver objective value), and to leave EVERY "
         "objective coefficient as at entry on normal return (given both were 0 at entry, which the sweep's prelude establishes) - "
@@ -29,13 +31,20 @@ def run(rep):
         "closed again; with pfba_factor: add_pfba (proved, C09) is called with the SAME fraction (repair 1766950) inside an inner "
         "context, the parsimonious problem is solved, flux_sum <= pfba_factor x that minimum is tied to the total-flux expression "
         "by an equality and both are added AFTER the inner context has been left (in the function's own context). With the "
-        "assumption that an `optimal` answer of the solver is a true optimum this is the statement for that path. The pool "
-        "fan-out (C14), the loopless post-processing and GLPK's "
+        "assumption that an `optimal` answer of the solver is a true optimum this is the statement for that path. The SAME "
+        "post-condition is proved for ANY `processes` (int or None -> configuration.processes), i.e. also for the PARALLEL branch "
+        "(contracts/c14_fva_pool.py), against an assumed contract of the pool (imap_unordered yields every task's result once in an "
+        "arbitrary order - ghost permutation -, workers initialised by _init_worker on a copy of the prepared model; that earlier "
+        "tasks of a worker do not matter follows from _fva_step's proved frame): for every requested id the stored minimum / maximum "
+        "is the value of the +forward -reverse solve of that reaction in direction min / max, nothing is stored under another key, "
+        "one pool per sweep with exactly (min(processes, n), _init_worker, (model, loopless, sense)), chunksize = n // processes >= 1, "
+        "pool left again. The pool itself (C14), the loopless post-processing and GLPK's "
         "optimality are NOT proved: bounded driver (ranges against exact rational min/max of the documented problem; loopless "
         "against brute force)."),
         trusted=["optlang Objective.set_linear_coefficients (assumed contract)", "an optimal LP has a finite optimum (in the assumed optimize contract)",
                  "pandas / numpy / optlang constructors as uninterpreted operations; model.add_cons_vars and the objective setter as recorded calls", "GLPK optimize (assumed, monitored)",
-                 "DictList.get_by_id contract (proved under C15)"])
+                 "DictList.get_by_id contract (proved under C15)",
+                 "multiprocessing.Pool as the assumed contract Pool.imap_unordered (every result once, arbitrary order, private copies)"])
 
 
 def replay(payload):
